@@ -102,11 +102,12 @@ CHECKS["C13"] = {
              "Oracle: every keepalive-enabled endpoint's Recv fails within ping+pong+8*resendTimeout(hook, re-read as it grows)+1s and its later Send fails. "
              "Live peer: healthy link with round trip <= min(pong)-1ms (and below the resend/handshake timeouts), 1-4 phases of idle (0 .. 500 ping intervals, offsets -1/0/+1ms) followed by a burst; "
              "oracle: no call fails, no FIN on the wire, every message sent after an idle period is delivered within 60s. "
-             "Non-trivial: data was outstanding when the silence began, or total idle time > 10 ping intervals; distinct by scenario."),
+             "Mailbox layer (TestC13MailboxKeepalive, virtual time, the mailbox's own 5s/7s ping and 3s pong): idle phases up to 1h on a healthy relay each followed by an exchange (no failure allowed), then the relay swallows everything with 0..19 writes pending: both conns' Read must fail within 40s. Non-trivial: data was outstanding when the silence began, or total idle time > 10 ping intervals; distinct by scenario."),
     "assumptions": ["bounded detection time 8*resend accounts for two sync waits (3*resend each) around ping and pong", "transport model vnet.Link"],
     "units": [
         {"pkg": "gbnprop", "run": "TestC13DeadPeer", "checks": (2500, 30000), "shards": (1, 8), "timeout": (900, 5400), "gomaxprocs": [16, 1, 2, 4]},
         {"pkg": "gbnprop", "run": "TestC13LivePeer", "checks": (1200, 12000), "shards": (1, 8), "timeout": (900, 5400), "gomaxprocs": [16, 1, 2, 4]},
+        {"pkg": "mboxprop", "run": "TestC13MailboxKeepalive", "checks": (400, 6000), "shards": (1, 4), "timeout": (900, 5400)},
     ],
 }
 
@@ -116,12 +117,13 @@ CHECKS["C12"] = {
              "with Send blocked on a full window, Recv blocked, unacknowledged data, faults active, transport working or black-holed; context cancellation during NewClientConn/NewServerConn; and (real time) a transport whose sendFunc blocks. "
              "Oracles: every Close returns within FIN send timeout (1s) + 50ms of virtual time; blocked Send/Recv return errors and later calls fail within 50ms; over a working transport the peer's calls fail within one latency + 50ms; "
              "10 virtual minutes after both ends are closed no goroutine with a frame of the code under test remains in the bubble (runtime.Stack) and synctest reports no blocked goroutine. "
-             "Non-trivial: a Send was blocked or data was unacknowledged at the first Close, or several Close calls were made; every cancellation / blocking-transport case."),
+             "The same Close oracles are applied to mailbox.ClientConn / ServerConn over the in-memory relay in virtual time (TestC12MailboxClose: who/when/how many callers/traffic in flight/FIN deliverable or swallowed; Done() closed, peer notices by FIN within one latency or by the 5s/7s/3s keepalive, later Write fails, no goroutine left). Non-trivial: a Send was blocked or data was unacknowledged at the first Close, or several Close calls were made; every cancellation / blocking-transport / mailbox case with traffic or several callers."),
     "assumptions": ["timers without a goroutine are not observable by the leak detector", "blocking-transport cases run in real time with a 10x bound"],
     "units": [
         {"pkg": "gbnprop", "run": "TestC12Close", "checks": (3000, 40000), "shards": (1, 8), "timeout": (900, 5400), "gomaxprocs": [16, 1, 2, 4]},
         {"pkg": "gbnprop", "run": "TestC12HandshakeCancel", "checks": (600, 4000), "shards": (1, 2), "timeout": (900, 5400)},
         {"pkg": "gbnprop", "run": "TestC12BlockingTransport", "checks": (2, 12), "shards": (1, 2), "timeout": (900, 5400)},
+        {"pkg": "mboxprop", "run": "TestC12MailboxClose", "checks": (500, 8000), "shards": (1, 4), "timeout": (900, 5400)},
     ],
 }
 
